@@ -22,6 +22,7 @@ type ReplayFile struct {
 	Label      string            `json:"label,omitempty"`
 	Inputs     map[string]uint64 `json:"inputs"`
 	Expect     string            `json:"expect"`
+	Tier       int               `json:"tier"` // 0 quick, 1 thorough: the harness bounds the inputs were found under
 }
 
 func expectOf(v ViolationJSON) string {
